@@ -358,7 +358,15 @@ func comment(t *rapid.T, label string, to, from string, mids []string) string {
 	case 1:
 		return ";WARNING: " + rapid.StringMatching(`[A-Za-z0-9 .,:]{0,30}`).Draw(t, label+"_w")
 	default:
-		return ";" + rapid.StringMatching(`[ -~]{0,40}`).Draw(t, label+"_c")
+		c := ";" + rapid.StringMatching(`[ -~]{0,40}`).Draw(t, label+"_c")
+		// ";FW", ";PQ" and ";PR" open handshake lines: a free-text comment must not begin with them (a caller's
+		// handshake has no terminator, so its first-turn comments are read by the same grammar)
+		for _, reserved := range []string{";FW", ";PQ", ";PR", ";fw", ";pq", ";pr"} {
+			if strings.HasPrefix(c, reserved) {
+				c = ";-" + c[1:]
+			}
+		}
+		return c
 	}
 }
 
